@@ -64,6 +64,7 @@ def run(ctx):
     ctx.rule("R15.6", "parse_file returns get_error_count() == 0; every error() increments the count; a failed parse exits non-zero and no output is opened before parsing completed")
     ctx.rule("R15.8", "every scanner loop that re-reads its look-ahead character inside the body can only go round while a test implying `c != EOF` holds (c != EOF, c == 'x', isX(c), c >= 0): at end of input it exits")
     ctx.rule("R15.9", "a cursor p into a string X is never used as a position (X[p], X.substr(p), X.compare(p,..), handed back through a reference parameter) after an increment that was not preceded by a test implying p < X.size(), unless such a test lies in between")
+    ctx.rule("R15.10", "CPPPreprocessor::_infile is null once the last input file has been popped (get() tests for it); every other dereference of _infile is behind a test that it is not null")
     ctx.rule("R15.7", "macro expansion excludes the macro being expanded: nested_ignores.insert(manifest) before the recursive expansion; the pushed expansion suppresses its own macro")
 
     # ------------------------------------------------------------ R15.1
@@ -189,6 +190,7 @@ def run(ctx):
     ctx.info("R15.2: %d position arguments that are loop indices / find() results were enumerated, not judged" % n_not)
 
     scanner_loops(ctx)
+    infile_derefs(ctx)
     string_cursors(ctx, thorough)
 
     # ------------------------------------------------------------ R15.3
@@ -668,4 +670,71 @@ def _dead_arm(f, node):
             if ne and eq and all(any(e[0] == n0[0] and e[1] != n0[1] for n0 in ne) for e in eq) and any(x is node for x in walk(a.get("then") or {})):
                 return True
     return False
+
+
+
+
+INFILE_EXEMPT = {
+    "CPPPreprocessor::error": "inside `if (!infiles.empty())`, and infiles is filled by walking the chain that starts at _infile: non-empty implies _infile != nullptr",
+}
+
+
+def infile_derefs(ctx):
+    """R15.10: get() pops the finished InputFile and leaves _infile null at the end of the top-level file - also in the
+    middle of a directive whose line is the last of the file and has no newline.  Belief stated by the code itself:
+    get()/peek() test `_infile == nullptr`; a dereference elsewhere without the test contradicts it."""
+    db = ctx.db
+    n = 0
+    tested = False
+    for f in db.functions:
+        if not f.file.endswith("cppPreprocessor.cxx") or not f.name.startswith("CPPPreprocessor::") or "InputFile" in f.name:
+            continue
+        sites = []
+        for x in f.walk():
+            b = None
+            if x.get("k") == "mem" and x.get("arrow"):
+                b = strip_casts(peel(x.get("b")))
+            elif x.get("k") == "call" and "this" in x and x.get("arrow", True):
+                b = strip_casts(peel(x["this"]))
+            if b is not None and b.get("k") == "mem" and (field_of(b) or "").endswith("CPPPreprocessor::_infile"):
+                sites.append(x)
+        if not sites:
+            continue
+
+        def nonnull(atom, truth):
+            c = G.cmp_atom(atom)
+            if c:
+                op, a, b = c
+                if not truth:
+                    op = G.NEG[op]
+                for u, v in ((a, b), (b, a)):
+                    if (field_of(u) or "").endswith("CPPPreprocessor::_infile") and v is not None and (strip_casts(v) or {}).get("k") == "nullp":
+                        return op == "!="
+                return False
+            return (field_of(atom) or "").endswith("CPPPreprocessor::_infile") and truth
+        edges = G.edges_where(f, nonnull)
+        if edges:
+            tested = True
+        # assignments `_infile = <new object>` also establish it for what follows in the same block
+        for x in sites:
+            n += 1
+            inst = "%s|%s" % (f.name, _norm(show(x))[:40])
+            if f.name in INFILE_EXEMPT:
+                ctx.ob("R15.10", inst + "|exception", True, f.loc(x), "reasoned exception: " + INFILE_EXEMPT[f.name])
+                continue
+            ok = G.gated(f, x, edges)
+            if not ok:
+                # freshly assigned in this block before the use?
+                lx = f.cfg.locate(x)
+                for y in f.walk():
+                    t = assigned_target(y)
+                    if t and (field_of(t[0]) or "").endswith("CPPPreprocessor::_infile"):
+                        ly = f.cfg.locate(y)
+                        r = local_ref(t[1])
+                        if ly is not None and lx is not None and ly[0] == lx[0] and ly[1] < lx[1] and r is not None:
+                            ok = True
+            ctx.ob("R15.10", inst, ok, f.loc(x), "`%s` is %sbehind a test that _infile is not null" % (show(x)[:50], "" if ok else "NOT "))
+    if not tested:
+        ctx.broken("R15.10: no `_infile == nullptr` test found any more: the premise (get() leaves _infile null) must be re-read")
+    ctx.floor("R15.10", "_infile dereferences", n, 3)
 
